@@ -159,3 +159,25 @@ Qed.
 
 Lemma disjoint_sym a b : disjoint a b -> disjoint b a.
 Proof. intros D x Hb Ha. exact (D x Ha Hb). Qed.
+
+(* ---------------------------------------------------------------- the regenerated copy rule *)
+(* every kind of value that has a mutable part and is recognised by Cloning.clone is copied or rendered, never shared *)
+Lemma recognised_kinds_not_shared :
+  forallb (fun r => forallb (fun j => forallb (fun k => match clone_mode r j k with Share => false | _ => true end)
+                                              [VStr; VList; VOriented; VFieldArray]) [true; false]) [true; false] = true.
+Proof. vm_compute. reflexivity. Qed.
+
+Theorem recognised_kind_copied r j k : In k [VStr; VList; VOriented; VFieldArray] -> clone_mode r j k <> Share.
+Proof.
+  intros Hk E. pose proof recognised_kinds_not_shared as F.
+  rewrite forallb_forall in F. assert (Hr : In r [true; false]) by (destruct r; cbn; tauto). specialize (F r Hr).
+  rewrite forallb_forall in F. assert (Hj : In j [true; false]) by (destruct j; cbn; tauto). specialize (F j Hj).
+  rewrite forallb_forall in F. specialize (F k Hk). rewrite E in F. discriminate.
+Qed.
+
+(* a line all of whose values are immutable or of a recognised kind has no mutable value shared *)
+Theorem recognised_line_not_shared l :
+  (forall f, In f l -> locs (f_val f) = [] \/ In (f_kind f) [VStr; VList; VOriented; VFieldArray]) -> no_mutable_shared l.
+Proof.
+  intros H f Hf M. destruct (H f Hf) as [E|K]; [exact E|]. exfalso. exact (recognised_kind_copied _ _ _ K M).
+Qed.
